@@ -1911,6 +1911,16 @@ def malformed_calls(rng, h):
         ('undeclared-var', 'var', ['nosuch']),
         ('cube-late-undeclared', 'cube', [','.join([f'{nm}=1' for nm in names] + ['nosuch=1'])]),
         ('unknown-node-pick', 'pick_iter', [bogus]),
+        ('rooted-gc-unknown-node', 'gc_roots', [f'{u},{bogus}']),
+        ('descendants-unknown-node', 'descendants', [f'{u},{bogus}']),
+        ('to_nx-unknown-node', 'to_nx', [str(bogus)]),
+        ('incref-unknown-node', 'incref', [bogus]),
+        ('decref-unknown-node', 'decref', [-bogus]),
+        ('negative-level-add_var', 'add_var', ['fresh_name', -1]),
+        ('pairs-undeclared', 'reorder_pairs', [f'{some}=nosuch']) if n else ('undeclared-var', 'var', ['nosuch']),
+        ('pairs-late-undeclared', 'reorder_pairs', [f'{names[0]}={names[-1]},{names[1]}=nosuch'])
+        if n >= 3 else ('undeclared-var', 'var', ['nosuch']),
+        ('pairs-same-variable', 'reorder_pairs', [f'{some}={some}']) if n else ('undeclared-var', 'var', ['nosuch']),
     ]
     used = [nm for nm in names if any(t[0] == h.b.vars[nm] for t in h.b._succ.values() if t[1] is not None)]
     unused = [nm for nm in names if nm not in used]
@@ -2089,7 +2099,7 @@ def check_C17(ctx):
                     h.prune()
                     continue
                 bad = order_views_ok(b) + check_invariants(b, h.ledger(), probe=not dyn)
-                if dict(b.vars) != order and label != 'bad-order-missing-name':
+                if dict(b.vars) != order and label not in ('bad-order-missing-name', 'pairs-late-undeclared'):
                     bad.append('variable order changed by a failed call')
                 tt = TT(b, univ)
                 for u, t in tts.items():
